@@ -214,3 +214,22 @@ def run(ctx):
     if missed:
         ctx.machinery("binding self-test: corrupted observations not rejected by laws %s" % missed)
     ctx.cov["binding_selftest_probes"] = len(probes)
+
+
+def replay(ctx, rep):
+    """Re-execute one recorded pair on the current tree and print the real testament texts' hashes."""
+    env.init()
+    r = rep["replay"]
+    c = r["c"]
+    ha, hb = texts_of(c["a"], c["va"]), texts_of(c["b"], c["vb"])
+    fld = r.get("fld")
+    if fld:
+        print("field %s: %r vs %r" % (fld, VALUES[fld][c["a"][fld]], VALUES[fld][c["b"][fld]]))
+    else:
+        print("same record stored as %s vs %s" % (c["va"], c["vb"]))
+    for k in sorted(ha):
+        print("  %s  %s  %s  %s" % (k, ha[k], hb[k], "equal" if ha[k] == hb[k] else "different"))
+    ctx.count(1, traces=1)
+    ctx.nontrivial("replay")
+    ctx.sample({"a": ha, "b": hb})
+    ctx.rule("replay of one recorded pair")
